@@ -538,6 +538,9 @@ def main(argv: list[str]) -> int:
     if cmd == "selftest":
         import selftest
         return selftest.main(only, tier, jobs)
+    if cmd == "seedtest":
+        import selftest
+        return selftest.seedtest(only, tier, jobs)
     if cmd in catalog.PROPERTIES:
         return check_property(cmd, tier, only, jobs, write_evidence=(only is None))
     print(f"unknown command or property: {cmd}")
